@@ -5,7 +5,8 @@ lmfit.minimize is under its ASSUMED contract (DESIGN.md 2.6): it returns a fresh
 Parameters object with the same names; it does not modify what it is given; fixed
 parameters keep their value, varied ones lie in [min, max]; chisqr is the sum of
 squared residuals of the returned parameters.  Nothing about which minimiser it finds.
-The model's ``model``/``residual`` callables are uninterpreted (their contracts are C02/C13).
+The model's ``model`` is a pointwise uninterpreted function of (E, contact_point, baseline, abscissa sample) and
+``residual`` is (data - model) x contact-point weight (their contracts are C02/C13).
 """
 from __future__ import annotations
 
@@ -60,29 +61,43 @@ def _mk_fitter(I, S, st, with_results=False):
     return o
 
 
+def cpw_term(cp, xv, W):
+    """contact-point weight of one sample (contract of compute_contact_point_weights, proved in C13/C04):
+    |x - cp| / W capped at 1; no weighting when the weight distance is zero/False"""
+    d = z3.If(xv - cp >= 0, xv - cp, cp - xv) / W
+    return z3.If(W != 0, z3.If(d > 1, 1, d), 1)
+
+
 def _install_model(I, st):
-    """registered model 'M' with uninterpreted model()/residual(); calls are recorded"""
+    """registered model 'M' under the CONTRACT of NaniteFitModel.model / .residual (C02, C13): model() is a
+    pointwise, otherwise uninterpreted function MODELF of the three parameter values and the abscissa sample;
+    residual() is (data - model) times the contact-point weight.  Parameter values are read when called."""
     fit = I.module("nanite.fit")
-    MODEL = z3.Function("MODEL", z3.IntSort(), z3.RealSort())
-    RESID = z3.Function("RESID", z3.IntSort(), z3.RealSort())
+    R = z3.RealSort()
+    MODELF = z3.Function("MODELF", R, R, R, R, R)
     calls = []
 
-    def cp_now(params):
-        return params.map.d["contact_point"][1].attrs["value"]
+    def vals(params):
+        return [V.rterm(params.map.d[nm][1].attrs["value"]) for nm in PN]
 
     def model(I, self, params, x):
-        calls.append(("model", params, V.rterm(cp_now(params)), x))
-        return SCompressed(lambda i: SReal(MODEL(i)), x.maskfn, x.length, "real")
+        pv = vals(params)
+        calls.append(("model", params, pv[1], x))
+        return SCompressed(lambda i: SReal(MODELF(*pv, V.rterm(x.fn(i)))), x.maskfn, x.length, "real")
 
     def residual(I, self, params, x, y, w):
-        calls.append(("residual", params, V.rterm(cp_now(params)), x, y, w))
-        return SCompressed(lambda i: SReal(RESID(i)), x.maskfn, x.length, "real")
+        pv = vals(params)
+        calls.append(("residual", params, pv[1], x, y, w))
+        wt = V.rterm(w)
+        return SCompressed(lambda i: SReal((V.rterm(y.fn(i)) - MODELF(*pv, V.rterm(x.fn(i))))
+                                           * cpw_term(pv[1], V.rterm(x.fn(i)), wt)),
+                           x.maskfn, x.length, "real")
     mdcls = sx.ClassVal("NaniteFitModel", [sx.OBJECT], {})
     mdcls.ns["model"] = sx.Builtin("md.model", model)
     mdcls.ns["residual"] = sx.Builtin("md.residual", residual)
     md = sx.Obj(mdcls)
     fit.env.vars["model"].env.vars["models_available"] = sx.SDict([("M", md)])
-    st.update(md=md, MODEL=MODEL, RESID=RESID, model_calls=calls)
+    st.update(md=md, MODELF=MODELF, model_calls=calls)
 
 
 def _install_minimize(I, st):
@@ -177,33 +192,18 @@ def unit__fit(prop, tier=None, seed=None):
                              V.rterm(m["snapshot"][nm]["value"]) == st["pt"][nm]["value"], witness=nm)
             ph = m["ph"]
             # ---- write-back --------------------------------------------------------------
-            mcalls = [c for c in calls if c[0] == "model"]
-            rcalls = [c for c in calls if c[0] == "residual"]
+            # the model of the FITTED parameters (contact point still in corrected units) at the corrected abscissa
+            fitted = [ph[nm]["value"] for nm in PN]
+            mod_i = st["MODELF"](*fitted, x.uf(i) * k)
             if prop in ("C04", "C11"):
-                S.ensure("model_evaluated_once_with_fitted_params_on_corrected_segment",
-                         len(mcalls) == 1 and mcalls[0][1] is m["phat"])
-                if len(mcalls) == 1:
-                    c = mcalls[0]
-                    S.ensure("model_sees_fitted_contact_point_in_corrected_units", c[2] == ph["contact_point"]["value"])
-                    S.ensure("model_abscissa_is_whole_segment_times_k",
-                             z3.Implies(inr, z3.And(c[3].maskfn(i) == seg.uf(i),
-                                                    z3.Implies(seg.uf(i), V.rterm(c[3].fn(i)) == x.uf(i) * k))))
                 S.ensure("fit_column_is_model_on_segment_nan_elsewhere",
-                         z3.Implies(inr, z3.And(z3.Implies(seg.uf(i), z3.And(cv.term == st["MODEL"](i), z3.Not(nan(cv)))),
+                         z3.Implies(inr, z3.And(z3.Implies(seg.uf(i), z3.And(cv.term == mod_i, z3.Not(nan(cv)))),
                                                 z3.Implies(z3.Not(seg.uf(i)), nan(cv)))))
             if prop == "C04":
-                S.ensure("residuals_evaluated_once_with_fitted_params",
-                         len(rcalls) == 1 and rcalls[0][1] is m["phat"] and rcalls[0][5] is fp.map.d["weight_cp"][1])
-                if len(rcalls) == 1:
-                    c = rcalls[0]
-                    S.ensure("residual_sees_fitted_contact_point_in_corrected_units", c[2] == ph["contact_point"]["value"])
-                    S.ensure("residual_data_is_whole_segment",
-                             z3.Implies(inr, z3.And(c[3].maskfn(i) == seg.uf(i), c[4].maskfn(i) == seg.uf(i),
-                                                    z3.Implies(seg.uf(i), z3.And(V.rterm(c[3].fn(i)) == x.uf(i) * k,
-                                                                                 V.rterm(c[4].fn(i)) == y.uf(i))))))
+                want = (y.uf(i) - mod_i) * cpw_term(ph["contact_point"]["value"], x.uf(i) * k, W)
                 S.ensure("residual_column_is_weighted_residual_on_segment_nan_elsewhere",
-                         z3.Implies(inr, z3.And(z3.Implies(seg.uf(i), z3.And(rv.term == st["RESID"](i), z3.Not(nan(rv)))),
-                                                z3.Implies(z3.Not(seg.uf(i)), nan(rv)))))
+                         z3.Implies(inr, z3.And(z3.Implies(seg.uf(i), z3.And(rv.term == want, z3.Not(nan(rv)))),
+                                                z3.Implies(z3.Not(seg.uf(i)), nan(rv)))), timeout_ms=60000)
                 e = fp.map.d.get("chi_sqr")
                 S.ensure("chi_square_is_the_optimisers", e is not None and e[0] is True and e[1] is m["chi"])
                 S.ensure("success_reported", succ is not None and succ[0] is True and succ[1] is True)
@@ -427,7 +427,7 @@ def replay_fitter(ob):
                 return {"confirmed": True, "input": {"gcf_k": k, "contact_point fixed at": cp0},
                         "observed": got, "required": cp0}
         return {"confirmed": False}
-    if "unsuccessful" in oid or "nan" in oid:
+    if "unsuccessful" in oid:
         xs = np.sort(tip[seg == 0])
         for rtype, rx in (("absolute", (xs[5], xs[7])), ("relative cp", (-5e-9, 5e-9))):
             cur = _synthetic()
